@@ -2,7 +2,7 @@
 use crate::common::any_endian;
 use minidump::format as md;
 use minidump::system_info::{Cpu, Os};
-use minidump::{Endian, MinidumpException, MinidumpStream};
+use minidump::{CrashReason, Endian, MinidumpException, MinidumpStream};
 
 fn any_os() -> Os {
     match kani::any::<u8>() % 9 {
@@ -84,6 +84,119 @@ fn c14_q_exception_read_fields() {
     // private field `context` is observable through `context()`; here only its presence via print-independent API:
     // (MinidumpException::context needs system info; the slice itself is checked in C01's location_slice harness)
     let _ = (size, rva);
+}
+
+/// Stand-in for `CrashReason::from_windows_error` (WinError / NTSTATUS / facility tables: several thousand
+/// enum variants whose `from_u32` make Kani's goto-instrument run out of memory, design probe ak).
+pub fn stub_win_error(code: u32) -> CrashReason {
+    CrashReason::WindowsUnknown(code)
+}
+
+/// F: CrashReason::from_windows_exception, CrashReason::from_windows_code, ExceptionCodeWindows::from_u32, ExceptionCodeWindowsAccessType / InPageErrorType::from_u64
+/// I: all 168 bytes of the exception stream (any code, flags, parameter count, parameters)
+/// B: one exception record
+/// A: CrashReason::from_windows_error (the WinError/NTSTATUS tables) replaced by a stub returning WindowsUnknown(code); codes that are ExceptionCodeWindows members never reach it
+/// O: EXCEPTION_ACCESS_VIOLATION becomes WindowsAccessViolation(kind) exactly when number_parameters >= 1 and parameter 0 is 0/1/8 (read/write/exec), else WindowsGeneral; EXCEPTION_IN_PAGE_ERROR becomes WindowsInPageError(kind, parameter 2 & 0xffffffff) exactly when number_parameters >= 3 and parameter 0 is 0/1/8; every other code yields some reason; never panics
+#[kani::proof]
+#[kani::unwind(18)]
+#[kani::stub(minidump::CrashReason::from_windows_error, stub_win_error)]
+fn c14_q_windows_reason_refinement() {
+    let bytes: [u8; 168] = kani::any();
+    let ex = MinidumpException::read(&bytes, &bytes, any_endian(), None).unwrap();
+    let rec = &ex.raw.exception_record;
+    let code = rec.exception_code;
+    let n = rec.number_parameters;
+    let i0 = rec.exception_information[0];
+    let i2 = rec.exception_information[2];
+    let r = CrashReason::from_windows_exception(&ex.raw, any_cpu());
+    let kind = i0 == 0 || i0 == 1 || i0 == 8;
+    kani::cover!(code == 0xC000_0006 && n >= 3 && kind, "an in-page error with its kind");
+    if code == 0xC000_0005 {
+        if n >= 1 && kind {
+            match r {
+                Some(CrashReason::WindowsAccessViolation(t)) => assert!(t as u64 == i0),
+                _ => assert!(false),
+            }
+        } else {
+            assert!(matches!(r, Some(CrashReason::WindowsGeneral(_))));
+        }
+    } else if code == 0xC000_0006 {
+        if n >= 3 && kind {
+            match r {
+                Some(CrashReason::WindowsInPageError(t, s)) => assert!(t as u64 == i0 && s == (i2 & 0xffff_ffff)),
+                _ => assert!(false),
+            }
+        } else {
+            assert!(matches!(r, Some(CrashReason::WindowsGeneral(_))));
+        }
+    } else {
+        assert!(r.is_some());
+    }
+    std::mem::forget(r);
+}
+
+/// F: CrashReason::from_exception (OS dispatch) via MinidumpException::get_crash_reason, for operating systems without a reason table
+/// I: all 168 bytes of the exception stream; OS in {Solaris, PS3, NaCl, Unknown(any)}; CPU any
+/// B: one exception record
+/// A: from_windows_error stubbed (keeps the Windows tables out of the build; not reached for these OSes)
+/// O: the reason is exactly Unknown(exception_code, exception_flags); never panics
+#[kani::proof]
+#[kani::unwind(18)]
+#[kani::stub(minidump::CrashReason::from_windows_error, stub_win_error)]
+fn c14_q_reason_unknown_os() {
+    let bytes: [u8; 168] = kani::any();
+    let ex = MinidumpException::read(&bytes, &bytes, any_endian(), None).unwrap();
+    let os = match kani::any::<u8>() % 4 {
+        0 => Os::Solaris,
+        1 => Os::Ps3,
+        2 => Os::NaCl,
+        _ => Os::Unknown(kani::any()),
+    };
+    let r = ex.get_crash_reason(os, any_cpu());
+    match r {
+        CrashReason::Unknown(c, f) => assert!(c == ex.raw.exception_record.exception_code && f == ex.raw.exception_record.exception_flags),
+        _ => assert!(false),
+    }
+}
+
+/// F: CrashReason::from_exception -> from_linux_exception / from_mac_exception (OS dispatch, signal and si_code tables, mach exception tables)
+/// I: all 168 bytes of the exception stream; OS in {Linux, Android, macOS, iOS}; CPU any
+/// B: one exception record
+/// A: from_windows_error stubbed (keeps the Windows tables out of the build; not reached for these OSes)
+/// O: never panics for any code/flags/parameters; on Linux/Android a reason that carries raw values carries the record's own (LinuxGeneral(signal, flags): signal number = exception_code, flags = exception_flags; a refined kind equals exception_flags and belongs to that signal; an unknown signal gives Unknown(code, flags))
+#[kani::proof]
+#[kani::unwind(18)]
+#[kani::stub(minidump::CrashReason::from_windows_error, stub_win_error)]
+fn c14_q_reason_linux_mac_total() {
+    let bytes: [u8; 168] = kani::any();
+    let ex = MinidumpException::read(&bytes, &bytes, any_endian(), None).unwrap();
+    let code = ex.raw.exception_record.exception_code;
+    let flags = ex.raw.exception_record.exception_flags;
+    let linux: bool = kani::any();
+    let os = if linux {
+        if kani::any() { Os::Linux } else { Os::Android }
+    } else if kani::any() {
+        Os::MacOs
+    } else {
+        Os::Ios
+    };
+    let r = ex.get_crash_reason(os, any_cpu());
+    if linux {
+        match r {
+            CrashReason::LinuxGeneral(sig, f) => assert!(sig as u32 == code && f == flags),
+            CrashReason::LinuxSigsegv(k) => assert!(code == 11 && k as u32 == flags),
+            CrashReason::LinuxSigbus(k) => assert!(code == 7 && k as u32 == flags),
+            CrashReason::LinuxSigill(k) => assert!(code == 4 && k as u32 == flags),
+            CrashReason::LinuxSigfpe(k) => assert!(code == 8 && k as u32 == flags),
+            CrashReason::LinuxSigtrap(k) => assert!(code == 5 && k as u32 == flags),
+            CrashReason::LinuxSigsys(k) => assert!(code == 31 && k as u32 == flags),
+            CrashReason::Unknown(c, f) => assert!(c == code && f == flags),
+            _ => assert!(false),
+        }
+        kani::cover!(code == 11 && flags == 1, "SIGSEGV / SEGV_MAPERR");
+    } else {
+        std::mem::forget(r);
+    }
 }
 
 /// Reachability witness.
